@@ -1,5 +1,7 @@
 # C02 - Delivered stream is an exact prefix of what the peer sent, under any attack
 HARNESSES = [
+    COMMON["aead"]("gcm12_open", 1, [(24, "quick"), (25, "quick"), (40, "quick"), (0, "thorough"), (16, "thorough")]),
+    COMMON["aead"]("gcm13_open", 3, [(16, "quick"), (17, "quick"), (40, "quick")]),
     COMMON["dec12"]("cbc_unpad", ["C02"], COMMON["dec12_cases"](64, 40, dtls_only=("dtls10", "dtls12n")) + COMMON["dec12_cases"](96, 56, tier="thorough")),
     COMMON["dec13"]("tls13_inner", ["C02"], ns=((48, "quick"), (96, "thorough"))),
 ]
